@@ -75,11 +75,11 @@ Parse(cp) ==
 DurationFn(v) ==
   IF v.t # "str" THEN E({"type", "fnerr"})
   ELSE LET p == Parse(v.cp) IN
-       IF ~p.ok THEN (IF p.long THEN D(E({"fnerr"})) ELSE E({"fnerr", "overflow"}))
+       IF ~p.ok THEN (IF p.long THEN D(E({"fnerr", "overflow", "type"})) ELSE E({"fnerr", "overflow", "type"}))
        ELSE LET dm == N!DivMod(p.num, Pow10(SCALE))
                 n == Z!Z(IF p.neg THEN -1 ELSE 1, dm[1])
                 exact == N!IsZero(dm[2])
-                r == IF ~NM!InI64(n) THEN (IF NM!InI64(Z!Add(n, Z!FromInt(p.count))) \/ NM!InI64(Z!Sub(n, Z!FromInt(p.count))) THEN D(E({"fnerr", "overflow"})) ELSE E({"fnerr", "overflow"}))
+                r == IF ~NM!InI64(n) THEN (IF NM!InI64(Z!Add(n, Z!FromInt(p.count))) \/ NM!InI64(Z!Sub(n, Z!FromInt(p.count))) THEN D(E({"fnerr", "overflow", "type"})) ELSE E({"fnerr", "overflow", "type"}))
                      ELSE IF exact THEN R(VDur(n))
                      ELSE D(R(VDur(n)))          \* sub-nanosecond input: truncation or rounding
             IN  IF p.plus \/ p.bare0 \/ (p.micro /\ FALSE) THEN D(r) ELSE r      \* a leading '+' and the bare "0" are accepted either way
